@@ -37,6 +37,13 @@ theorem calcLength_lenText (tb dflt : Int) (len : Option LenExpr) (h : lenOK len
     simp only []
     rw [Len.loop_sum tb dflt L.parts hsep hw _ (by have := Len.segs_length_ge L.parts; omega)]
 
+def lenSV : Option LenExpr → SV
+  | none => .none
+  | some L => .str (lenText (some L))
+def velSV : Option Int → SV
+  | none => .none
+  | some x => .int x
+
 def optInt (d : Int) : Option Int → SV
   | none => .int d
   | some x => .int x
@@ -77,7 +84,7 @@ def toTrees : Cmd → List (Loop.Tree Tok)
   | .div body len => [.leaf (.mk .div (Core.countElems body) 0 none [.str (lenText len)] (some (rawL (toTreesL body))))]
   | .chord body len q v =>
     [.leaf (tok .harmonyBegin 0 [])] ++ toTreesL body ++
-      [.leaf (tok .harmonyEnd 0 [match len with | none => SV.none | some _ => .str (lenText len), optInt (-1) q, match v with | none => SV.none | some x => .int x])]
+      [.leaf (tok .harmonyEnd 0 [lenSV len, optInt (-1) q, velSV v])]
   | .track n => [.leaf (.mk .track 0 0 none [] (constKids n))]
   | .channel n => [.leaf (.mk .channel 0 0 none [] (constKids n))]
   | .trackSync => [.leaf (tok .trackSync 0 [])]
@@ -392,12 +399,6 @@ theorem leaf_harmonyBegin (F d : Nat) (s : Song) (h : Inv s) (hf : s.harmonyFlag
   simp only [chordBegin, e1]
   apply St_ext <;> simp [abs, h.he hf]
 
-def lenSV : Option LenExpr → SV
-  | none => .none
-  | some L => .str (lenText (some L))
-def velSV : Option Int → SV
-  | none => .none
-  | some x => .int x
 
 theorem lenSV_toS (len : Option LenExpr) : (lenSV len).toS = lenText len := by
   cases len <;> rfl
@@ -519,4 +520,354 @@ theorem leaf_trackSync (F d : Nat) (s : Song) (h : Inv s) :
     obtain ⟨y, hy, rfl⟩ := hx
     exact h.tr y hy
 
+/-! ## well-formed programs, nesting depth, and the link between the lexer-form token list and the loop trees -/
+
+mutual
+def cwf : Cmd → Prop
+  | .note semi _ _ len _ _ t _ => noteWF semi len t
+  | .noteN _ len _ _ t => lenOK len ∧ t ≠ some intMin
+  | .rest len _ => lenOK len
+  | .setL len => lenOK len
+  | .setO _ | .octRel _ | .setV _ | .velRel _ | .setQ _ | .setT _ | .track _ | .channel _ | .trackSync => True
+  | .loop n b hb k => 1 ≤ n ∧ cwfL b ∧ cwfL k ∧ (hb = true ∨ k = [])
+  | .sub b => cwfL b
+  | .div b len => cwfL b ∧ lenOK len
+  | .chord b len _ v => cwfL b ∧ b.all simple = true ∧ lenOK len ∧ (∀ x, v = some x → 0 ≤ x)
+  | .voice _ | .keyShift _ | .trackKey _ | .keyFlag _ _ | .play _ => False
+def cwfL : List Cmd → Prop
+  | [] => True
+  | c :: cs => cwf c ∧ cwfL cs
+end
+
+mutual
+def depth : Cmd → Nat
+  | .loop _ b _ k => max (depthL b) (depthL k)
+  | .sub b => depthL b + 1
+  | .div b _ => depthL b + 1
+  | .chord b _ _ _ => depthL b
+  | _ => 0
+def depthL : List Cmd → Nat
+  | [] => 0
+  | c :: cs => max (depth c) (depthL cs)
+end
+
+/-- a leaf token is not one of the three loop tokens -/
+def LeafTok (t : Tok) : Prop := t.ty ≠ .loopBegin ∧ t.ty ≠ .loopBreak ∧ t.ty ≠ .loopEnd
+
+mutual
+def leavesOK : Loop.Tree Tok → Prop
+  | .leaf a => LeafTok a
+  | .loop _ b _ k => leavesOKL b ∧ leavesOKL k
+def leavesOKL : List (Loop.Tree Tok) → Prop
+  | [] => True
+  | t :: ts => leavesOK t ∧ leavesOKL ts
+end
+
+theorem toLoopTok_leaf (a : Tok) (h : LeafTok a) : toLoopTok a = .other a := by
+  obtain ⟨h1, h2, h3⟩ := h
+  cases a with
+  | mk ty vi line vs data ch =>
+    simp only [Tok.ty] at h1 h2 h3
+    unfold toLoopTok
+    cases ty <;> simp_all [Tok.ty, Tok.data]
+
+mutual
+theorem raw_flatten (t : Loop.Tree Tok) (h : leavesOK t) : (rawT t).map toLoopTok = Loop.flatten t := by
+  cases t with
+  | leaf a => simp [rawT, Loop.flatten, toLoopTok_leaf a h]
+  | loop n b hb k =>
+    simp only [leavesOK] at h
+    simp only [rawT, Loop.flatten, List.map_append, List.map_cons, List.map_nil, raw_flattenL b h.1]
+    have e1 : toLoopTok (tok .loopBegin 0 [.int (n : Int)]) = .lbegin n := by
+      simp [toLoopTok, tok, Tok.ty, Tok.data]
+    have e2 : toLoopTok (tok .loopBreak 0 []) = .lbreak := by simp [toLoopTok, tok, Tok.ty, Tok.data]
+    have e3 : toLoopTok (tok .loopEnd 0 []) = .lend := by simp [toLoopTok, tok, Tok.ty, Tok.data]
+    cases hb <;> simp [e1, e2, e3, raw_flattenL k h.2]
+theorem raw_flattenL (ts : List (Loop.Tree Tok)) (h : leavesOKL ts) : (rawL ts).map toLoopTok = Loop.flattenL ts := by
+  cases ts with
+  | nil => simp [rawL, Loop.flattenL]
+  | cons t ts =>
+    simp only [leavesOKL] at h
+    simp [rawL, Loop.flattenL, raw_flatten t h.1, raw_flattenL ts h.2]
+end
+
+theorem leavesOKL_append (a b : List (Loop.Tree Tok)) (ha : leavesOKL a) (hb : leavesOKL b) : leavesOKL (a ++ b) := by
+  induction a with
+  | nil => simpa using hb
+  | cons t ts ih =>
+    simp only [leavesOKL] at ha
+    simp only [List.cons_append, leavesOKL]
+    exact ⟨ha.1, ih ha.2⟩
+
+theorem leafTok_of_ty (a : Tok) (h : a.ty ≠ .loopBegin ∧ a.ty ≠ .loopBreak ∧ a.ty ≠ .loopEnd) : LeafTok a := h
+
+mutual
+theorem toTrees_leaves (c : Cmd) : leavesOKL (toTrees c) := by
+  cases c
+  case loop n b hb k => simp only [toTrees, leavesOKL, leavesOK]; exact ⟨⟨toTreesL_leaves b, toTreesL_leaves k⟩, trivial⟩
+  case chord b len q v =>
+    simp only [toTrees]
+    refine leavesOKL_append _ _ (leavesOKL_append _ _ ?_ (toTreesL_leaves b)) ?_
+    · simp [leavesOKL, leavesOK, LeafTok, tok, Tok.ty]
+    · simp [leavesOKL, leavesOK, LeafTok, tok, Tok.ty]
+  all_goals simp [toTrees, leavesOKL, leavesOK, LeafTok, tok, Tok.ty]
+theorem toTreesL_leaves (cs : List Cmd) : leavesOKL (toTreesL cs) := by
+  cases cs with
+  | nil => simp [toTreesL, leavesOKL]
+  | cons c cs => simp only [toTreesL]; exact leavesOKL_append _ _ (toTrees_leaves c) (toTreesL_leaves cs)
+end
+
+theorem wfL_append (a b : List (Loop.Tree Tok)) (ha : Loop.wfL a = true) (hb : Loop.wfL b = true) : Loop.wfL (a ++ b) = true := by
+  induction a with
+  | nil => simpa using hb
+  | cons t ts ih =>
+    simp only [Loop.wfL, Bool.and_eq_true] at ha
+    simp only [List.cons_append, Loop.wfL, Bool.and_eq_true]
+    exact ⟨ha.1, ih ha.2⟩
+
+mutual
+theorem toTrees_wf (c : Cmd) (h : cwf c) : Loop.wfL (toTrees c) = true := by
+  cases c
+  case loop n b hb k =>
+    simp only [cwf] at h
+    obtain ⟨hn, hb1, hk1, hbk⟩ := h
+    simp only [toTrees, Loop.wfL, Loop.wf, Bool.and_eq_true, decide_eq_true_eq, Bool.or_eq_true, and_true]
+    refine ⟨⟨⟨hn, toTreesL_wf b hb1⟩, toTreesL_wf k hk1⟩, ?_⟩
+    rcases hbk with h1 | h1
+    · exact Or.inl h1
+    · right; subst h1; simp [toTreesL]
+  case chord b len q v =>
+    simp only [cwf] at h
+    simp only [toTrees]
+    exact wfL_append _ _ (wfL_append _ _ (by simp [Loop.wfL, Loop.wf]) (toTreesL_wf b h.1)) (by simp [Loop.wfL, Loop.wf])
+  all_goals simp [toTrees, Loop.wfL, Loop.wf]
+theorem toTreesL_wf (cs : List Cmd) (h : cwfL cs) : Loop.wfL (toTreesL cs) = true := by
+  cases cs with
+  | nil => simp [toTreesL, Loop.wfL]
+  | cons c cs =>
+    simp only [cwfL] at h
+    simp only [toTreesL]
+    exact wfL_append _ _ (toTrees_wf c h.1) (toTreesL_wf cs h.2)
+end
+
+theorem unrollL_append {α} (a b : List (Loop.Tree α)) : Loop.unrollL (a ++ b) = Loop.unrollL a ++ Loop.unrollL b := by
+  induction a with
+  | nil => simp [Loop.unrollL]
+  | cons t ts ih => simp [Loop.unrollL, ih]
+
+/-! ## the refinement -/
+
+/-- the executed leaves `A` (under the action `act`) implement `f` on abstract states; `nf` = the state must be outside a chord -/
+def Impl (act : Tok → Song → Song) (A : List Tok) (f : Core.St → Core.St) (nf : Bool) : Prop :=
+  ∀ s, Inv s → (nf = true → s.harmonyFlag = false) →
+    abs (Loop.foldAct act A s) = f (abs s) ∧ Inv (Loop.foldAct act A s) ∧ (Loop.foldAct act A s).harmonyFlag = s.harmonyFlag
+
+theorem Impl.weaken {act A f b b'} (h : Impl act A f b) (hb : b = true → b' = true) : Impl act A f b' :=
+  fun s hi hf => h s hi (fun hb1 => hf (hb hb1))
+
+theorem Impl.append {act A B f g b} (h1 : Impl act A f b) (h2 : Impl act B g b) : Impl act (A ++ B) (fun x => g (f x)) b := by
+  intro s hi hf
+  obtain ⟨a1, a2, a3⟩ := h1 s hi hf
+  obtain ⟨b1, b2, b3⟩ := h2 _ a2 (fun hb => by rw [a3]; exact hf hb)
+  rw [Loop.foldAct_append]
+  exact ⟨by rw [b1, a1], b2, by rw [b3, a3]⟩
+
+theorem Impl.nil (act : Tok → Song → Song) (b : Bool) : Impl act [] (fun x => x) b :=
+  fun s hi _ => ⟨rfl, hi, rfl⟩
+
+theorem Impl.iter {act A B fa fb b} (h1 : Impl act A fa b) (h2 : Impl act B fb b) :
+    ∀ n, Impl act (Loop.iterL A B n) (Core.iter fa fb n) b := by
+  intro n
+  induction n using Nat.strongRecOn with
+  | _ n ih =>
+    match n with
+    | 0 => exact Impl.nil act b
+    | 1 => exact h1
+    | k+2 =>
+      have := (h1.append h2).append (ih (k+1) (by omega))
+      intro s hi hf
+      have r := this s hi hf
+      simpa [Loop.iterL, Core.iter, List.append_assoc] using r
+
+theorem Impl.single {act : Tok → Song → Song} {tk : Tok} {f b}
+    (h : ∀ s, Inv s → (b = true → s.harmonyFlag = false) → abs (act tk s) = f (abs s) ∧ Inv (act tk s) ∧ (act tk s).harmonyFlag = s.harmonyFlag) :
+    Impl act (Loop.unrollL [Loop.Tree.leaf tk]) f b := by
+  intro s hi hf
+  simpa [Loop.unrollL, Loop.unroll, Loop.foldAct] using h s hi hf
+
+theorem all_simple_depth : ∀ (b : List Cmd), b.all simple = true → depthL b = 0 := by
+  intro b
+  induction b with
+  | nil => intro _; rfl
+  | cons c cs ih =>
+    intro h
+    simp only [List.all_cons, Bool.and_eq_true] at h
+    have : depth c = 0 := by cases c <;> simp_all [simple, depth]
+    simp [depthL, this, ih h.2]
+
+/-- running the children of a block token: with enough fuel the nested `exec` is the fold over the unrolled leaves -/
+theorem block_run (b : List Cmd) (hw : cwfL b) :
+    ∃ k, ∀ (act : Tok → Song → Song) (s : Song) (F : Nat), k + 1 ≤ F →
+      Loop.runFuel act ((rawL (toTreesL b)).map toLoopTok) F (0, [], s) = some (Loop.foldAct act (Loop.unrollL (toTreesL b)) s) := by
+  obtain ⟨k, hk⟩ := Loop.level_run (toTreesL b) (toTreesL_wf b hw)
+  refine ⟨k, fun act s F hF => ?_⟩
+  rw [raw_flattenL _ (toTreesL_leaves b)]
+  exact hk act s F hF
+
+mutual
+theorem refine (c : Cmd) (hw : cwf c) : ∀ d, depth c ≤ d → ∃ F0, ∀ F, F0 ≤ F →
+    Impl (leaf F d) (Loop.unrollL (toTrees c)) (Core.sem c) (!simple c) := by
+  intro d hd
+  cases c
+  case note semi acc nat len q v t o =>
+    exact ⟨0, fun F _ => Impl.single (fun s hi _ => leaf_note F d semi acc nat len q v t o hw s hi)⟩
+  case noteN no len q v t =>
+    exact ⟨0, fun F _ => Impl.single (fun s hi _ => leaf_noteN F d no len q v t hw.1 hw.2 s hi)⟩
+  case rest len dir => exact ⟨0, fun F _ => Impl.single (fun s hi _ => leaf_rest F d len dir hw s hi)⟩
+  case setL len => exact ⟨0, fun F _ => Impl.single (fun s hi _ => leaf_setL F d len hw s hi)⟩
+  case setO n => exact ⟨0, fun F _ => Impl.single (fun s hi _ => leaf_setO F d n s hi)⟩
+  case octRel n => exact ⟨0, fun F _ => Impl.single (fun s hi _ => leaf_octRel F d n s hi)⟩
+  case setV n => exact ⟨0, fun F _ => Impl.single (fun s hi _ => leaf_setV F d n s hi)⟩
+  case velRel n => exact ⟨0, fun F _ => Impl.single (fun s hi _ => leaf_velRel F d n s hi)⟩
+  case setQ n => exact ⟨0, fun F _ => Impl.single (fun s hi _ => leaf_setQ F d n s hi)⟩
+  case setT n => exact ⟨0, fun F _ => Impl.single (fun s hi _ => leaf_setT F d n s hi)⟩
+  case track n => exact ⟨0, fun F _ => Impl.single (fun s hi _ => leaf_track F d n s hi)⟩
+  case channel n => exact ⟨0, fun F _ => Impl.single (fun s hi _ => leaf_channel F d n s hi)⟩
+  case trackSync => exact ⟨0, fun F _ => Impl.single (fun s hi _ => leaf_trackSync F d s hi)⟩
+  case voice n => exact absurd hw (by simp [cwf])
+  case keyShift n => exact absurd hw (by simp [cwf])
+  case trackKey n => exact absurd hw (by simp [cwf])
+  case keyFlag a b => exact absurd hw (by simp [cwf])
+  case play ps => exact absurd hw (by simp [cwf])
+  case loop n b hb k =>
+    simp only [cwf] at hw
+    simp only [depth] at hd
+    obtain ⟨Fb, hFb⟩ := refineL b hw.2.1 d (by omega)
+    obtain ⟨Fk, hFk⟩ := refineL k hw.2.2.1 d (by omega)
+    refine ⟨max Fb Fk, fun F hF => ?_⟩
+    have hb' := (hFb F (by omega)).weaken (b' := true) (fun _ => rfl)
+    have hk' := (hFk F (by omega)).weaken (b' := true) (fun _ => rfl)
+    have := Impl.iter hb' hk' n
+    simpa [toTrees, Loop.unrollL, Loop.unroll, Core.sem, simple] using this
+  case sub b =>
+    simp only [cwf] at hw
+    simp only [depth] at hd
+    obtain ⟨d', rfl⟩ : ∃ d', d = d' + 1 := ⟨d - 1, by omega⟩
+    obtain ⟨Fb, hFb⟩ := refineL b hw d' (by omega)
+    obtain ⟨k, hk⟩ := block_run b hw
+    refine ⟨max Fb (k + 1), fun F hF => Impl.single (fun s hi hf => ?_)⟩
+    have hrun := hk (leaf F d') s F (by omega)
+    obtain ⟨a1, a2, a3⟩ := (hFb F (by omega)) s hi (fun _ => hf (by simp [simple]))
+    have e1 : (abs s).t.tp = s.t.timepos := by rw [abs_t]; rfl
+    unfold leaf
+    simp only [hi.nb, Bool.false_eq_true, if_false, Tok.ty, Tok.children, hrun, a2.nb]
+    refine ⟨?_, inv_setT _ _ a2 (inv_t _ a2), by simpa using a3⟩
+    simp only [abs_setT, a1, Core.sem, e1]
+    congr 1
+    simp [abs_t, a1.symm, absT]
+  case div b len =>
+    simp only [cwf] at hw
+    simp only [depth] at hd
+    obtain ⟨d', rfl⟩ : ∃ d', d = d' + 1 := ⟨d - 1, by omega⟩
+    obtain ⟨Fb, hFb⟩ := refineL b hw.1 d' (by omega)
+    obtain ⟨k, hk⟩ := block_run b hw.1
+    refine ⟨max Fb (k + 1), fun F hF => Impl.single (fun s hi hf => ?_)⟩
+    have hfl : s.harmonyFlag = false := hf (by simp [simple])
+    have e1 : (abs s).t = absT s.t := abs_t s
+    -- the state the body starts in
+    obtain ⟨s0, hs0d⟩ : ∃ s0, s0 = s.setT { s.t with length := if Core.countElems b > 0 then Int.tdiv (Core.lenOpt s.tb s.t.length len) (Core.countElems b) else 0 } := ⟨_, rfl⟩
+    have hi0 : Inv s0 := hs0d ▸ inv_setT _ _ hi (inv_t s hi)
+    have hfl0 : s0.harmonyFlag = false := by rw [hs0d]; exact hfl
+    have ht0 : s0.tb = s.tb := by rw [hs0d]; rfl
+    have hrun := hk (leaf F d') s0 F (by omega)
+    obtain ⟨a1, a2, a3⟩ := (hFb F (by omega)) s0 hi0 (fun _ => hfl0)
+    have hs0 : abs s0 = (abs s).setT { (abs s).t with l := if Core.countElems b > 0 then Core.tdiv (Core.lenOpt (abs s).tb (abs s).t.l len) (Core.countElems b) else 0 } := by
+      rw [hs0d, abs_setT, e1]
+      congr 1
+      simp only [absT, abs_tb]
+      congr 1
+      split
+      · rename_i hc; simp [Core.tdiv, Int.ne_of_gt hc]
+      · rfl
+    generalize Loop.foldAct (leaf F d') (Loop.unrollL (toTreesL b)) s0 = S' at hrun a1 a2 a3
+    unfold leaf
+    simp only [hi.nb, Bool.false_eq_true, if_false, Tok.ty, Tok.children, Tok.vi, Tok.data, dataS, List.getD_cons_zero, str_toS,
+      calcLength_lenText _ _ len hw.2, ← hs0d, hrun, a2.nb]
+    refine ⟨?_, inv_setT _ _ a2 (inv_t _ a2), by simpa [hfl0, hfl] using a3⟩
+    simp only [abs_setT, Core.sem]
+    rw [← hs0, ← a1]
+    simp only [abs_t, abs_tb]
+    congr 1
+  case chord b len q v =>
+    simp only [cwf] at hw
+    obtain ⟨hwb, hsim, hl, hv⟩ := hw
+    simp only [depth] at hd
+    obtain ⟨Fb, hFb⟩ := refineL b hwb d (by omega)
+    refine ⟨Fb, fun F hF => ?_⟩
+    intro s hi hf
+    have hfl : s.harmonyFlag = false := hf (by simp [simple])
+    have hshape : Loop.unrollL (toTrees (.chord b len q v)) =
+        [tok .harmonyBegin 0 []] ++ (Loop.unrollL (toTreesL b) ++ [tok .harmonyEnd 0 [lenSV len, optInt (-1) q, velSV v]]) := by
+      simp [toTrees, unrollL_append, Loop.unrollL, Loop.unroll]
+    rw [hshape, Loop.foldAct_append, Loop.foldAct_append]
+    have hsing : ∀ (x : Tok) (st : Song), Loop.foldAct (leaf F d) [x] st = leaf F d x st := fun x st => by simp [Loop.foldAct]
+    rw [hsing, hsing]
+    obtain ⟨b1, b2, b3⟩ := leaf_harmonyBegin F d s hi hfl
+    obtain ⟨c1, c2, c3⟩ := (hFb F hF) _ b2 (fun h => by simp [hsim] at h)
+    obtain ⟨e1, e2, e3⟩ := leaf_harmonyEnd F d len q v hl hv _ c2 (by rw [c3, b3])
+    refine ⟨?_, e2, by rw [e3, hfl]⟩
+    rw [e1, c1, b1, sem_chord]
+theorem refineL (cs : List Cmd) (hw : cwfL cs) : ∀ d, depthL cs ≤ d → ∃ F0, ∀ F, F0 ≤ F →
+    Impl (leaf F d) (Loop.unrollL (toTreesL cs)) (Core.semL cs) (!cs.all simple) := by
+  intro d hd
+  cases cs with
+  | nil => exact ⟨0, fun F _ => by simpa [toTreesL, Loop.unrollL, Core.semL] using Impl.nil (leaf F d) false⟩
+  | cons c cs =>
+    simp only [cwfL] at hw
+    simp only [depthL] at hd
+    obtain ⟨F1, h1⟩ := refine c hw.1 d (by omega)
+    obtain ⟨F2, h2⟩ := refineL cs hw.2 d (by omega)
+    refine ⟨max F1 F2, fun F hF => ?_⟩
+    have a1 := (h1 F (by omega)).weaken (b' := !(c :: cs).all simple) (by simp; intro h; simp [h])
+    have a2 := (h2 F (by omega)).weaken (b' := !(c :: cs).all simple) (by simp; intro x hx hx2; exact Or.inr ⟨x, hx, hx2⟩)
+    have := a1.append a2
+    simpa [toTreesL, unrollL_append, Core.semL] using this
+end
+
+/-- the token list the lexer produces for a program (loops flat, blocks with their children) -/
+def compileL (cs : List Cmd) : List Tok := rawL (toTreesL cs)
+
+/-- **exec_refines_sem**: for every well-formed program of the core note language (any nesting of loops with `:`,
+    `Sub`, tuplets and chords, on any tracks) there is a fuel bound such that `runner::exec` (the model `Ex2.exec`) run on the
+    compiled token list, from any state satisfying the invariant and outside a chord, terminates in a state whose
+    abstraction is the denotational semantics `Core.semL` of the program. -/
+theorem exec_refines_sem (cs : List Cmd) (hw : cwfL cs) :
+    ∃ F0, ∀ F, F0 ≤ F → ∀ s, Inv s → s.harmonyFlag = false →
+      ∃ s', exec F (depthL cs) (compileL cs) s = some s' ∧ abs s' = Core.semL cs (abs s) ∧ Inv s' := by
+  obtain ⟨F1, h1⟩ := refineL cs hw (depthL cs) (Nat.le_refl _)
+  obtain ⟨k, hk⟩ := block_run cs hw
+  refine ⟨max F1 (k + 1), fun F hF s hi hf => ?_⟩
+  obtain ⟨a1, a2, _⟩ := (h1 F (by omega)) s hi (fun _ => hf)
+  exact ⟨_, hk (leaf F (depthL cs)) s F (by omega), a1, a2⟩
+
+theorem inv_init : Inv ({} : Song) := by
+  refine ⟨rfl, rfl, rfl, by decide, fun _ => rfl, ?_⟩
+  intro t ht
+  simp at ht
+  subst ht
+  exact ⟨rfl, rfl, rfl, rfl, rfl⟩
+
+theorem abs_init : abs ({} : Song) = Core.St.init := by
+  simp [abs, Core.St.init, absT, Trk.new, Core.newTrk, clampI, Core.clamp]
+  decide
+
+/-- from the fresh song: the compiled program run by the model of `exec` yields `semL cs St.init` -/
+theorem exec_refines_sem_init (cs : List Cmd) (hw : cwfL cs) :
+    ∃ F0, ∀ F, F0 ≤ F → ∃ s', exec F (depthL cs) (compileL cs) {} = some s' ∧ abs s' = Core.semL cs Core.St.init := by
+  obtain ⟨F0, h⟩ := exec_refines_sem cs hw
+  refine ⟨F0, fun F hF => ?_⟩
+  obtain ⟨s', h1, h2, _⟩ := h F hF {} inv_init rfl
+  exact ⟨s', h1, by rw [h2, abs_init]⟩
+
+#print axioms exec_refines_sem_init
 end Sakura.Ex2
